@@ -16,6 +16,14 @@ Proof. vm_compute. reflexivity. Qed.
 Lemma C18_locks_big : well_locked policy_C18_big funs_big addrow_big = true.
 Proof. vm_compute. reflexivity. Qed.
 
+(** AddRow takes the writer mutex exactly once: reading the counter, the updates and the
+    increment are ONE critical section (a version that reads the id under a read lock and
+    re-locks for the update satisfies the lockset discipline but not this). *)
+Lemma C18_single_section_mem : Nat.leb (max_acq policy_C18_mem funs_mem "IndexWriter.mtx" 8 addrow_mem) 1 = true.
+Proof. vm_compute. reflexivity. Qed.
+Lemma C18_single_section_big : Nat.leb (max_acq policy_C18_big funs_big "BigIndexWriter.mtx" 8 addrow_big) 1 = true.
+Proof. vm_compute. reflexivity. Qed.
+
 Lemma all_repeat pol funs e n : well_locked pol funs e = true -> well_locked_all pol funs (repeat e n) = true.
 Proof.
   intros H. unfold well_locked_all. apply forallb_forall. intros x Hx. apply repeat_spec in Hx. subst. exact H.
